@@ -10,6 +10,7 @@ import (
 	"go/token"
 	"go/types"
 	"regexp"
+	"sort"
 	"strings"
 	"text/template/parse"
 
@@ -49,6 +50,8 @@ func checkC01(ctx *Ctx, r *Report) {
 	c01EnumNullMember(ctx, r)
 	c08UnionReuseComparesBranches(ctx, r)
 	c01GoNamedDateTimeIsAlias(ctx, r)
+	c01GoTemplateVariablesEscaped(ctx, r)
+	c01SixthRound(ctx, r)
 	c01LoopLocalResult(ctx, r)
 	c12UnionWrapperClassified(ctx, r)
 	c01AbsentDefaultedField(ctx, r)
@@ -2862,4 +2865,208 @@ func c01GoNamedDateTimeIsAlias(ctx *Ctx, r *Report) {
 	r.Count("declarations of named date-time strings (Go)", 1)
 	r.Check(alias, "kinds/go-named-datetime-is-alias", "golang.formatTypeDeclaration declares a named date-time string", fd.Pos(), "as an alias of time.Time",
 		"a named date-time string is declared `type Timestamp time.Time`: the defined type has none of time.Time's methods, and {\"at\":\"2024-01-02T03:04:05Z\"} fails with `cannot unmarshal string into Go struct field Event.at of type demo.Timestamp` with both decoders")
+}
+
+// c01GoTemplateVariablesEscaped: some Go templates declare a local variable named after a *type* of the schema
+// (`var {{ $typeName|formatVarName }} T` in the decoders of unions: one variable per branch). formatVarName escapes the
+// identifiers listed by isUsedByGeneratedCode; that list has to hold every identifier the same template uses itself —
+// its parameters, the variables it declares, the packages it qualifies calls with — or a branch called Raw / Json /
+// Found shadows it: `json.Unmarshal(raw, &raw)`. The identifiers are read from the template text, the list from the
+// case clauses of isUsedByGeneratedCode and isReservedGoKeyword.
+func c01GoTemplateVariablesEscaped(ctx *Ctx, r *Report) {
+	ts, err := loadTemplates(ctx, "golang")
+	if err != nil {
+		r.Undecided("cannot parse golang templates: %v", err)
+		return
+	}
+	p := ctx.Pkg("internal/jennies/golang")
+	if p == nil {
+		r.Undecided("anchor lost: internal/jennies/golang")
+		return
+	}
+	info := p.TypesInfo
+	escaped := map[string]bool{}
+	for _, name := range []string{"isUsedByGeneratedCode", "isReservedGoKeyword"} {
+		fn := ctx.LookupFunc("internal/jennies/golang", name)
+		fd, _ := ctx.DeclOf(fn)
+		if fd == nil {
+			r.Undecided("anchor lost: golang.%s", name)
+			return
+		}
+		ast.Inspect(fd.Body, func(m ast.Node) bool {
+			if e, ok := m.(ast.Expr); ok {
+				if tv, ok := info.Types[e]; ok && tv.Value != nil && tv.Value.Kind() == constant.String {
+					escaped[constant.StringVal(tv.Value)] = true
+				}
+			}
+			return true
+		})
+	}
+	declares := regexp.MustCompile(`(var\s+⟦[^⟧]*formatVarName[^⟧]*⟧)|(⟦[^⟧]*formatVarName[^⟧]*⟧\s*:=)`)
+	short := regexp.MustCompile(`\b([a-z][A-Za-z0-9_]*(?:\s*,\s*[a-z][A-Za-z0-9_]*)*)\s*:=`)
+	varDecl := regexp.MustCompile(`\bvar\s+([a-z][A-Za-z0-9_]*)\b`)
+	qualifier := regexp.MustCompile(`\b([a-z][A-Za-z0-9_]*)\.[A-Z]`)
+	param := regexp.MustCompile(`\)\s+[A-Za-z0-9_]+\(([a-z][A-Za-z0-9_]*)\s+[\[\]\*A-Za-z0-9_.]+\)`)
+	n := 0
+	for _, name := range ts.names() {
+		full := tmplTextFull(ts.trees[name].Root)
+		if !declares.MatchString(full) {
+			continue
+		}
+		// the literal text of the template only: what the actions print is not Go written by the template
+		var literal strings.Builder
+		walkTmpl(ts.trees[name].Root, func(m parse.Node) bool {
+			if tn, ok := m.(*parse.TextNode); ok {
+				literal.Write(tn.Text)
+				literal.WriteString(" ")
+			}
+			return true
+		})
+		text := literal.String()
+		used := map[string]bool{}
+		for _, m := range short.FindAllStringSubmatch(text, -1) {
+			for _, id := range strings.Split(m[1], ",") {
+				used[strings.TrimSpace(id)] = true
+			}
+		}
+		for _, re := range []*regexp.Regexp{varDecl, qualifier, param} {
+			for _, m := range re.FindAllStringSubmatch(text, -1) {
+				used[m[1]] = true
+			}
+		}
+		// `resource` / `builder` selectors are covered by the list too; `_` is no identifier
+		delete(used, "_")
+		var missing []string
+		for id := range used {
+			if !escaped[id] {
+				missing = append(missing, id)
+			}
+		}
+		sort.Strings(missing)
+		n++
+		r.Check(len(missing) == 0, "kinds/go-template-variables-escaped", ts.file[name]+" names a variable after a type of the schema", token.NoPos, "every identifier the template uses itself is escaped by formatVarName",
+			fmt.Sprintf("%s declares a variable named after a type of the schema through formatVarName, which does not escape %v, identifiers the template uses itself: a union branch called Raw gives `var raw Raw` then `json.Unmarshal(raw, &raw)` — cannot use raw (variable of type Raw) as []byte; the package does not compile and no accepted document can be decoded", ts.file[name], missing))
+	}
+	r.Count("Go templates declaring a variable named after a type", n)
+	r.Floor("Go templates declaring a variable named after a type", 2)
+}
+
+// c01SixthRound — fifth hunt:
+//   - an enum is declared with the type of its members (`type Mode string`) whatever its own nullability, and the
+//     strict decoder asks the *reference* whether null is accepted: the walkRef of the JSON Schema and OpenAPI
+//     front-ends make the reference to an enum that accepts null nullable (as AnonymousEnumToExplicitType does for an
+//     enum written in place);
+//   - the CUE front-end names objects after their label: declareObject remembers where each name was declared from
+//     and fails when the same name is given to a definition found somewhere else (`#A: {#Cfg: …}`, `#B: {#Cfg: …}`).
+func c01SixthRound(ctx *Ctx, r *Report) {
+	n := 0
+	for _, rel := range []string{"internal/jsonschema", "internal/openapi"} {
+		p := ctx.Pkg(rel)
+		if p == nil {
+			r.Undecided("anchor lost: %s", rel)
+			continue
+		}
+		fd := c12Method(p, "walkRef")
+		if fd == nil {
+			r.Undecided("anchor lost: %s walkRef", rel)
+			continue
+		}
+		info := p.TypesInfo
+		refs := map[types.Object]bool{}
+		ast.Inspect(fd.Body, func(m ast.Node) bool {
+			if as, ok := m.(*ast.AssignStmt); ok && len(as.Lhs) == 1 && len(as.Rhs) == 1 {
+				if c, ok := ast.Unparen(as.Rhs[0]).(*ast.CallExpr); ok {
+					if f := callee(info, c); f != nil && f.Name() == "NewRef" {
+						if id, ok := as.Lhs[0].(*ast.Ident); ok {
+							refs[objOf(info, id)] = true
+						}
+					}
+				}
+			}
+			return true
+		})
+		carried := false
+		parents := parentMap(fd)
+		ast.Inspect(fd.Body, func(m ast.Node) bool {
+			as, ok := m.(*ast.AssignStmt)
+			if !ok || len(as.Lhs) != 1 {
+				return true
+			}
+			sel, ok := ast.Unparen(as.Lhs[0]).(*ast.SelectorExpr)
+			if !ok || sel.Sel.Name != "Nullable" {
+				return true
+			}
+			id, ok := ast.Unparen(sel.X).(*ast.Ident)
+			if !ok || !refs[objOf(info, id)] {
+				return true
+			}
+			for _, c := range enclosingConds(parents, as) {
+				if strings.Contains(exprString(c.stmt.Cond), "Enum") {
+					carried = true
+				}
+			}
+			return true
+		})
+		n++
+		r.Check(carried, "frontier/nullable-enum-reference", ctx.RelPkg(p.PkgPath)+".walkRef refers to an enum that accepts null", fd.Pos(), "the reference it returns is made nullable under a test on the referred enum",
+			ctx.RelPkg(p.PkgPath)+".walkRef returns a plain reference whatever it designates: `\"Mode\": {\"enum\": [\"a\", \"b\", null]}` (OpenAPI: enum + nullable: true) referred to by a required property is declared `Mode Mode` — {\"mode\":null} is re-encoded {\"mode\":\"\"}, which the schema rejects, and the strict decoder answers `required field is null`")
+	}
+	if p := ctx.Pkg("internal/simplecue"); p == nil {
+		r.Undecided("anchor lost: internal/simplecue")
+	} else if fd := c12Method(p, "declareObject"); fd == nil {
+		r.Undecided("anchor lost: simplecue.generator.declareObject")
+	} else {
+		info := p.TypesInfo
+		var nameParam types.Object
+		for _, f := range fd.Type.Params.List {
+			for _, nm := range f.Names {
+				if b, ok := info.TypeOf(nm).Underlying().(*types.Basic); ok && b.Kind() == types.String {
+					nameParam = info.Defs[nm]
+				}
+			}
+		}
+		// the early exit for a name that is already declared
+		var early token.Pos
+		ast.Inspect(fd.Body, func(m ast.Node) bool {
+			if is, ok := m.(*ast.IfStmt); ok && !early.IsValid() && strings.Contains(exprString(is.Cond), "Objects.Has(") && endsInExit(is.Body) {
+				early = is.Pos()
+			}
+			return true
+		})
+		// before it (or inside it): an error exit decided on a map indexed by the name
+		compares := false
+		ast.Inspect(fd.Body, func(m ast.Node) bool {
+			is, ok := m.(*ast.IfStmt)
+			if !ok || len(is.Body.List) == 0 {
+				return true
+			}
+			rs, ok := is.Body.List[len(is.Body.List)-1].(*ast.ReturnStmt)
+			if !ok || len(rs.Results) != 1 || isNilIdent(info, rs.Results[0]) {
+				return true
+			}
+			reads := false
+			for _, part := range []ast.Node{is.Init, is.Cond} {
+				if part == nil {
+					continue
+				}
+				ast.Inspect(part, func(k ast.Node) bool {
+					if ix, ok := k.(*ast.IndexExpr); ok {
+						if _, isMap := info.TypeOf(ix.X).Underlying().(*types.Map); isMap && nameParam != nil && isIdentOf(info, ix.Index, nameParam) {
+							reads = true
+						}
+					}
+					return true
+				})
+			}
+			if reads {
+				compares = true
+			}
+			return true
+		})
+		n++
+		r.Check(early.IsValid() && compares, "frontier/cue-definition-names-unique", "simplecue.declareObject declares an object under its label", fd.Pos(), "after comparing where that name was declared from, with an error exit",
+			"declareObject leaves as soon as the name is taken, whatever definition took it: `#A: {#Cfg: {x: string}, cfg: #Cfg}`, `#B: {#Cfg: {y: int}, cfg: #Cfg}` give one `type Cfg struct{X string}` used by both — {\"b\":{\"cfg\":{\"y\":1}}} is re-encoded {\"b\":{\"cfg\":{\"x\":\"\"}}}, which CUE rejects")
+	}
+	r.Count("hunted clauses of the round trip (6th round)", n)
+	r.Floor("hunted clauses of the round trip (6th round)", 3)
 }
